@@ -894,7 +894,9 @@ func TestVerifC31ParrotHellos(t *testing.T) {
 		vf31CheckHelloBytes(st, t, b, s.name, nil)
 	}
 	rapid.Check(t, func(rt *rapid.T) {
-		s := srcs[rapid.IntRange(0, len(srcs)-1).Draw(rt, "source")]
+		// rapid's integer generators favour small values; spread the sources with a hash of two draws
+		pick := sha256.Sum256([]byte(fmt.Sprintf("%d/%d", rapid.IntRange(0, len(srcs)-1).Draw(rt, "source"), rapid.Uint32().Draw(rt, "source_mix"))))
+		s := srcs[int(binary.BigEndian.Uint32(pick[:4])%uint32(len(srcs)))]
 		var name string
 		switch rapid.IntRange(0, 4).Draw(rt, "name_kind") {
 		case 0:
@@ -920,6 +922,84 @@ func TestVerifC31ParrotHellos(t *testing.T) {
 		st.NonTrivial("hello:" + s.name + ":" + vfHashHex(b)[:10])
 		st.Sample(map[string]any{"source": s.name, "server_name_len": len(name), "hello_len": len(b)})
 		vf31CheckHelloBytes(st, rt, b, s.name, nil)
+	})
+}
+
+// vf31Reencode rebuilds ClientHello bytes from a reference parse with the extensions in the given order.
+func vf31Reencode(h *vfHello, exts []vfExt) []byte {
+	var eb []byte
+	for _, e := range exts {
+		eb = append(eb, byte(e.Type>>8), byte(e.Type), byte(len(e.Body)>>8), byte(len(e.Body)))
+		eb = append(eb, e.Body...)
+	}
+	body := []byte{byte(h.Version >> 8), byte(h.Version)}
+	body = append(body, h.Random...)
+	body = append(body, byte(len(h.SessionID)))
+	body = append(body, h.SessionID...)
+	body = append(body, byte(len(h.Suites)*2>>8), byte(len(h.Suites)*2))
+	for _, s := range h.Suites {
+		body = append(body, byte(s>>8), byte(s))
+	}
+	body = append(body, byte(len(h.Compression)))
+	body = append(body, h.Compression...)
+	if h.HasExts {
+		body = append(body, byte(len(eb)>>8), byte(len(eb)))
+		body = append(body, eb...)
+	}
+	return append([]byte{1, byte(len(body) >> 16), byte(len(body) >> 8), byte(len(body))}, body...)
+}
+
+// Valid ClientHellos nobody's marshaller would produce: a real hello with its extensions permuted
+// (pre_shared_key kept last) and unknown extensions spliced in.
+func TestVerifC31PermutedHellos(t *testing.T) {
+	st := vfNewStats(t, "C31")
+	srcs := vf31Sources()
+	rapid.Check(t, func(rt *rapid.T) {
+		pick := sha256.Sum256([]byte(fmt.Sprintf("p%d/%d", rapid.IntRange(0, len(srcs)-1).Draw(rt, "source"), rapid.Uint32().Draw(rt, "source_mix"))))
+		s := srcs[int(binary.BigEndian.Uint32(pick[:4])%uint32(len(srcs)))]
+		b, err := vf31BuildHello(s, vfGenDNSName(rt, "name"), rapid.Uint64().Draw(rt, "seed"), nil)
+		if err != nil {
+			st.Violation(rt, "%s: cannot build a ClientHello: %v", s.name, err)
+		}
+		h := vfParseClientHello(b)
+		if len(h.Violations) > 0 || !h.HasExts {
+			st.Class("skipped:not-valid-by-reference-grammar")
+			return
+		}
+		exts := append([]vfExt(nil), h.Exts...)
+		var psk *vfExt
+		if n := len(exts); n > 0 && exts[n-1].Type == 41 {
+			psk = &exts[n-1]
+			exts = exts[:n-1]
+		}
+		// permutation by drawn swaps
+		for i := len(exts) - 1; i > 0; i-- {
+			j := rapid.IntRange(0, i).Draw(rt, fmt.Sprintf("swap%d", i))
+			exts[i], exts[j] = exts[j], exts[i]
+		}
+		have := map[uint16]bool{}
+		for _, e := range h.Exts {
+			have[e.Type] = true
+		}
+		nIns := rapid.IntRange(0, 2).Draw(rt, "ninsert")
+		for i := 0; i < nIns; i++ {
+			typ := rapid.SampledFrom([]uint16{0x7777, 0x1234, 0x0031, 0x5a5a, 0xcaca, 0x0fff, 0x0014, 0x0039 + 0x4000}).Draw(rt, fmt.Sprintf("instype%d", i))
+			if have[typ] {
+				continue
+			}
+			have[typ] = true
+			at := rapid.IntRange(0, len(exts)).Draw(rt, fmt.Sprintf("insat%d", i))
+			e := vfExt{Type: typ, Body: rapid.SliceOfN(rapid.Byte(), 0, 40).Draw(rt, fmt.Sprintf("insbody%d", i))}
+			exts = append(exts[:at], append([]vfExt{e}, exts[at:]...)...)
+		}
+		if psk != nil {
+			exts = append(exts, *psk)
+		}
+		nb := vf31Reencode(h, exts)
+		st.Eval()
+		st.Class("hello:permuted+unknown-extensions")
+		st.NonTrivial("perm:" + vfHashHex(nb)[:12])
+		vf31CheckHelloBytes(st, rt, nb, s.name+"(permuted)", nil)
 	})
 }
 
